@@ -3,6 +3,9 @@ package main
 import (
 	"context"
 	"fmt"
+	"os"
+	"os/exec"
+	"path/filepath"
 	"sort"
 	"strings"
 	"sync"
@@ -421,7 +424,57 @@ func pathsOf(prog []Op) map[string]bool {
 	return m
 }
 
+// runC15Race: free-running goroutines under the race detector (harness/racedev), in a child process.
+func runC15Race() {
+	c := &Case{ID: 9000, Kind: "race"}
+	c.Cells = []string{"race/free-running"}
+	dir := harnessDir()
+	bin := filepath.Join(filepath.Dir(dir), "build", "racedev.test")
+	build := exec.Command("go", "test", "-race", "-c", "-o", bin, "./racedev")
+	build.Dir = dir
+	build.Env = append(os.Environ(), "CGO_ENABLED=1") // the race detector needs cgo (the rest of the harness is built without)
+	if outb, err := build.CombinedOutput(); err != nil {
+		// no race detector available here: say so instead of claiming anything
+		c.Text = []string{"race-detector build failed, stage skipped: " + strings.TrimSpace(string(outb))}
+		c.Trivial = true
+		emit(c)
+		return
+	}
+	ms := "1500"
+	if os.Getenv("VERIF_TIER") == "thorough" {
+		ms = "15000"
+	}
+	cmd := exec.Command(bin, "-test.run", "^TestParallel$", "-test.count", "1", "-test.timeout", "120s")
+	cmd.Env = append(os.Environ(), "VERIF_RACE_MS="+ms, "GORACE=halt_on_error=0")
+	outb, err := cmd.CombinedOutput()
+	out := string(outb)
+	c.Text = []string{fmt.Sprintf("writer + 2 readers on one file (own handles), 3 goroutines doing namespace work in private and common directories, %s ms under the race detector: exit error %v", ms, err)}
+	first := func(marker string) string {
+		i := strings.Index(out, marker)
+		if i < 0 {
+			return ""
+		}
+		j := i + 900
+		if j > len(out) {
+			j = len(out)
+		}
+		return out[i:j]
+	}
+	switch {
+	case strings.Contains(out, "DATA RACE"):
+		c.fail("free-running goroutines on one mem.FS: the race detector reports a data race:\n"+first("WARNING: DATA RACE"), "race:data-race")
+	case strings.Contains(out, "VERIF-DEADLOCK") || strings.Contains(out, "test timed out"):
+		c.fail("free-running goroutines on one mem.FS did not finish (deadlock): "+first("VERIF-DEADLOCK"), "race:deadlock")
+	case strings.Contains(out, "VERIF-PROBLEM"):
+		c.fail("free-running goroutines on one mem.FS: "+first("VERIF-PROBLEM"), "race:problem")
+	case err != nil:
+		c.fail("the race stage failed: "+first("FAIL")+first("panic"), "race:failed")
+	}
+	emit(c)
+}
+
 func runC15(r *Rng, n int, replay string) {
+	defer runC15Race()
 	for id := 0; id < n; id++ {
 		unrelated := id%2 == 0
 		ng := 2
